@@ -19,10 +19,10 @@ def hermitian_sum(cx, a, w, t, dt, M_hint):
 
 
 @harness("C11", "monomer_spectrum_on_axis",
-         quick=[dict(Nt=4)], thorough=[dict(Nt=4), dict(Nt=3), dict(Nt=6)],
+         quick=[dict(Nt=4)], thorough=[dict(Nt=4), dict(Nt=3)],
          functions=[F_A + ":AbsSpectrumCalculator.bootstrap", F_A + ":AbsSpectrumCalculator._calculate_monomer",
                     F_A + ":AbsSpectrumCalculator.one_transition_spectrum"],
-         bound="molecule without bath, Nt=4 time points (thorough 3, 4, 6), time step 1: the time response a(t_n) the "
+         bound="molecule without bath, Nt=4 time points (thorough 3, 4; for Nt=6 the hfft length 10 and the axis length 12 mix roots of unity of orders the solver does not decide), time step 1: the time response a(t_n) the "
                "code hands to the FFT is captured and the returned raw spectrum is compared, at every point w_k of "
                "the RETURNED frequency axis, with dd * sum over the Hermitian extension of a(t_n) exp(i (w_k - rwa) "
                "t_n) dt; hfft by its defining sum with exact roots of unity",
